@@ -234,6 +234,47 @@ def gen_checked(fn, ret, params, ensures):
     return '\n'.join(src)
 
 
+def gen_checked_cbmc(fn, ret, params, ensures, requires):
+    """CBMC flavour of gen_checked: assume requires, assert every ensures clause (harness mode)"""
+    olds = []
+
+    def old_sub(e):
+        out = ''
+        i = 0
+        while True:
+            k = e.find('__CPROVER_old', i)
+            if k < 0:
+                out += e[i:]
+                break
+            out += e[i:k]
+            a = e.index('(', k)
+            b = match_paren(e, a)
+            olds.append(e[a + 1:b])
+            out += 'vp_old_%d' % (len(olds) - 1)
+            i = b + 1
+        return out
+    void = ret.replace('extern', '').strip() == 'void'
+    src = ['%s %s(%s);' % (ret, fn, params), '%s vp_checked_%s(%s)\n{' % (ret, fn, params)]
+    for r in requires:
+        src.append('  __CPROVER_assume(%s);' % ' '.join(r.split()))
+    body = []
+    for n, e in enumerate(ensures, 1):
+        c = old_sub(' '.join(e.split())).replace('__CPROVER_return_value', 'vp_ret')
+        body.append('  __CPROVER_assert(%s, "%s.postcondition.%d");' % (c, fn, n))
+    for i, o in enumerate(olds):
+        src.append('  __typeof__(%s) vp_old_%d = (%s);' % (o, i, o))
+    args = ', '.join(param_names(params))
+    if void:
+        src.append('  %s(%s);' % (fn, args))
+    else:
+        src.append('  %s vp_ret = %s(%s);' % (ret.replace('extern', '').strip(), fn, args))
+    src += body
+    if not void:
+        src.append('  return vp_ret;')
+    src.append('}')
+    return '\n'.join(src)
+
+
 def native_flags():
     fl = ['-DVP_NATIVE', '-g', '-O0', '-fno-pie', '-fsanitize=address,undefined', '-fno-sanitize-recover=undefined', '-fno-sanitize=vptr', '-w',
           '-I' + os.path.join(vp.REPO, '_build') if os.path.exists(os.path.join(vp.REPO, '_build', 'config.h')) else '-I.',
